@@ -714,7 +714,7 @@ def parse_tag(tag: str) -> Optional[dict]:
         _cnt = t.group("_elem_cnt_token")
         tag_name = t.group(0).replace(_cnt, "") if _cnt else t.group(0)
         bit_position = int(t.group("element_number"))
-        element_number = bit_position / 16
+        element_number = bit_position // 16
         sub_element = bit_position - (element_number * 16)
         element_count = t.group("element_count")
         return {
